@@ -467,7 +467,16 @@ fn check_case(repo: &dyn Repo, g: &G, carry: &Carry, commits: &[Commit], ids: &[
         } else {
             info.err_lines += 1;
             if s & bit(o.node) != 0 {
-                return Err(fail("unresolved/inside-searched-range", format!("line {i} is left unresolved at n{}, which is in the searched set {:?}", o.node, nodes_of(s))));
+                // known shape: an unsearched parent is a missing-edge target of two searched
+                // commits (process_commit counts it twice as an unresolved root and the walk
+                // stops early, leaving the initial Err(start, line) in place)
+                let shared = refs.iter().any(|(c1, r1)| refs.iter().any(|(c2, r2)| c1 < c2 && r1.missing & r2.missing != 0));
+                let clause = format!(
+                    "unresolved/inside-searched-range/{}{}",
+                    if o.node == start && o.line == i { "initial-origin-left-at-start" } else { "other" },
+                    if shared { "/unsearched-parent-shared-by-two-searched-commits" } else { "" }
+                );
+                return Err(fail(&clause, format!("line {i} is left unresolved at n{}, which is in the searched set {:?}", o.node, nodes_of(s))));
             }
             if !stops.contains(&(o.node, o.line)) {
                 return Err(fail(
@@ -621,7 +630,7 @@ impl Run<'_> {
                     }
                     if info.has_merge_in_searched {
                         st.cases_with_merge.inc();
-                        if info.lines_to_ancestors >= 2 && info.err_lines >= 1 {
+                        if info.lines_to_ancestors >= 2 && g.n >= 3 {
                             self.samples.offer(|| json!({"history": history_json(&g), "start": start, "domain": d}));
                         }
                     }
